@@ -521,6 +521,7 @@ func inlineSite(fset *token.FileSet, info *types.Info, file *ast.File, src []byt
 	// general position: a single-valued call that is the first thing with an effect the statement evaluates
 	// (so that hoisting it in front of the statement keeps the order), not under the right operand of && / ||
 	generalPos := false
+	var guards []condGuard
 	if !okCtx {
 		var roots []ast.Node
 		switch s := stmt.(type) {
@@ -544,8 +545,10 @@ func inlineSite(fset *token.FileSet, info *types.Info, file *ast.File, src []byt
 				roots = []ast.Node{s.Cond}
 			}
 		}
-		if len(roots) > 0 && firstEffect(info, roots, call) {
-			okCtx, generalPos = true, true
+		if len(roots) > 0 {
+			if ok, gs := firstEffect(info, roots, call); ok {
+				okCtx, generalPos, guards = true, true, gs
+			}
 		}
 	}
 	if !okCtx {
@@ -602,9 +605,28 @@ func inlineSite(fset *token.FileSet, info *types.Info, file *ast.File, src []byt
 	if strings.TrimSpace(indent) != "" {
 		return edit{}, "statement does not start its line"
 	}
+	// `return f(…)`: the helper's returns are the caller's returns — no temporaries, no jump
+	tail := false
+	if rs, ok := stmt.(*ast.ReturnStmt); ok && len(rs.Results) == 1 && ast.Unparen(rs.Results[0]) == ast.Expr(call) && nres > 0 {
+		tail = true
+	}
 	var b strings.Builder
-	for i, t := range resTypes {
-		fmt.Fprintf(&b, "var %s %s\n%s", tmp(i), t, indent)
+	if !tail {
+		for i, t := range resTypes {
+			fmt.Fprintf(&b, "var %s %s\n%s", tmp(i), t, indent)
+		}
+	}
+	if len(guards) > 0 {
+		// evaluated only where the original expression would have evaluated the call
+		var gs []string
+		for _, g := range guards {
+			t := "(" + text(src, g.x) + ")"
+			if g.neg {
+				t = "!" + t
+			}
+			gs = append(gs, t)
+		}
+		fmt.Fprintf(&b, "if %s {\n%s", strings.Join(gs, " && "), indent)
 	}
 	b.WriteString("{\n")
 	// receiver and parameters
@@ -717,7 +739,19 @@ func inlineSite(fset *token.FileSet, info *types.Info, file *ast.File, src []byt
 			asg = joinTmps(tmp, nres) + " = " + strings.Join(es, ", ")
 		}
 		rep := ""
-		if ast.Stmt(rs) == last {
+		if tail {
+			if len(rs.Results) > 0 {
+				continue // stays a return
+			}
+			var ns []string
+			for _, n := range resNames {
+				if n == "" || n == "_" {
+					return edit{}, "bare return with unnamed results"
+				}
+				ns = append(ns, n)
+			}
+			rep = "return " + strings.Join(ns, ", ")
+		} else if ast.Stmt(rs) == last {
 			rep = asg
 		} else {
 			usesGoto = true
@@ -737,11 +771,18 @@ func inlineSite(fset *token.FileSet, info *types.Info, file *ast.File, src []byt
 	if !bytes.HasSuffix(body, []byte("\n")) {
 		b.WriteString("\n")
 	}
+	if tail {
+		fmt.Fprintf(&b, "//line %s:%d\n%s}", path, fset.Position(stmt.End()).Line, indent)
+		return edit{ls + len(indent), fset.Position(stmt.End()).Offset, b.String()}, ""
+	}
 	fmt.Fprintf(&b, "//line %s:%d\n", path, fset.Position(stmt.Pos()).Line-1)
 	fmt.Fprintf(&b, "%s}\n", indent)
 	// the directive above makes the next line (the closing brace) line-1, so that the statement keeps its line
 	if usesGoto {
 		fmt.Fprintf(&b, "//line %s:%d\n%s%s:\n", path, fset.Position(stmt.Pos()).Line-1, indent, label)
+	}
+	if len(guards) > 0 {
+		fmt.Fprintf(&b, "//line %s:%d\n%s}\n", path, fset.Position(stmt.Pos()).Line-1, indent)
 	}
 	// the statement itself, the call replaced by the temporaries
 	co0 := fset.Position(call.Pos()).Offset - so
@@ -841,42 +882,55 @@ func mentionsPackage(t ast.Expr) bool {
 	return f
 }
 
+// condGuard: the call is evaluated only if x is true (neg=false) or false (neg=true).
+type condGuard struct {
+	x   ast.Expr
+	neg bool
+}
+
 // firstEffect: among the calls and channel receives the roots evaluate (in evaluation order:
 // operands before the operation, left to right), the first one outside call's own arguments is
-// call itself, and call is not evaluated conditionally (right operand of && / ||) nor inside a
-// function literal.
-func firstEffect(info *types.Info, roots []ast.Node, call *ast.CallExpr) bool {
+// call itself. If call sits under the right operand of && / ||, the left operands are returned as
+// guards — they must be free of effects, so that evaluating them twice changes nothing. A call
+// inside a function literal is not handled.
+func firstEffect(info *types.Info, roots []ast.Node, call *ast.CallExpr) (bool, []condGuard) {
 	var order []ast.Node
-	cond := false
-	var walk func(n ast.Node, conditional bool)
-	walk = func(n ast.Node, conditional bool) {
+	bad := false
+	var callGuards []condGuard
+	var walk func(n ast.Node, guards []condGuard)
+	walk = func(n ast.Node, guards []condGuard) {
 		switch x := n.(type) {
 		case nil:
 			return
 		case *ast.FuncLit:
 			if containsNode(x, call) {
-				cond = true
+				bad = true
 			}
 			return
 		case *ast.BinaryExpr:
-			walk(x.X, conditional)
-			walk(x.Y, conditional || x.Op == token.LAND || x.Op == token.LOR)
+			walk(x.X, guards)
+			if (x.Op == token.LAND || x.Op == token.LOR) && containsNode(x.Y, call) {
+				if hasCall(x.X) || hasRecv(x.X) {
+					bad = true
+				}
+				walk(x.Y, append(append([]condGuard{}, guards...), condGuard{x.X, x.Op == token.LOR}))
+				return
+			}
+			walk(x.Y, guards)
 			return
 		case *ast.CallExpr:
 			if x == call {
-				if conditional {
-					cond = true
-				}
+				callGuards = guards
 				// the receiver expression is evaluated before; the arguments move with the call
 				if sel, ok := ast.Unparen(x.Fun).(*ast.SelectorExpr); ok {
-					walk(sel.X, conditional)
+					walk(sel.X, guards)
 				}
 				order = append(order, x)
 				return
 			}
-			walk(x.Fun, conditional)
+			walk(x.Fun, guards)
 			for _, a := range x.Args {
-				walk(a, conditional)
+				walk(a, guards)
 			}
 			if tv, ok := info.Types[x.Fun]; ok && tv.IsType() {
 				return // conversion
@@ -889,7 +943,7 @@ func firstEffect(info *types.Info, roots []ast.Node, call *ast.CallExpr) bool {
 			order = append(order, x)
 			return
 		case *ast.UnaryExpr:
-			walk(x.X, conditional)
+			walk(x.X, guards)
 			if x.Op == token.ARROW {
 				order = append(order, x)
 			}
@@ -905,11 +959,22 @@ func firstEffect(info *types.Info, roots []ast.Node, call *ast.CallExpr) bool {
 			return false
 		})
 		for _, k := range kids {
-			walk(k, conditional)
+			walk(k, guards)
 		}
 	}
 	for _, r := range roots {
-		walk(r, false)
+		walk(r, nil)
 	}
-	return !cond && len(order) > 0 && order[0] == ast.Node(call)
+	return !bad && len(order) > 0 && order[0] == ast.Node(call), callGuards
+}
+
+func hasRecv(root ast.Node) bool {
+	f := false
+	ast.Inspect(root, func(n ast.Node) bool {
+		if u, ok := n.(*ast.UnaryExpr); ok && u.Op == token.ARROW {
+			f = true
+		}
+		return !f
+	})
+	return f
 }
